@@ -608,6 +608,9 @@ func (fg *FuncGen) loopEnv(li *loopInfo, st State, phiVals map[*ssa.Phi]string) 
 				if name == "it_seen" {
 					return TTerm{S: fg.famIn(st, it.seenFam), Sort: "(Array Int Bool)"}, true
 				}
+				if name == "it_str" && it.kind == "string" {
+					return TTerm{S: it.m.S, Sort: "Str", T: types.Typ[types.String]}, true // the string this loop ranges over
+				}
 			}
 		}
 		v := fg.resolveAt(name, li)
